@@ -284,7 +284,7 @@ func ensureBuilt(names []string, race bool) (string, *buildInfo) {
 			fmt.Fprintln(os.Stderr, failed)
 			die(2, "harness build failed (not a property violation)")
 		}
-		fmt.Fprintf(os.Stderr, "vcheck: instrumented build failed, retrying with %v un-instrumented\n", info.Degraded)
+		fmt.Fprintf(os.Stderr, "vcheck: instrumented build failed, retrying with %v un-instrumented; compiler said:\n%s\n", info.Degraded, tail(failed, 1500))
 	}
 }
 
@@ -347,6 +347,7 @@ type violation struct {
 	OrigCells int      `json:"orig_cells"`
 	OrigScen  []uint32 `json:"orig_scen,omitempty"`
 	OrigDyn   []uint32 `json:"orig_dyn,omitempty"`
+	BatchFrom uint64   `json:"batch_from"`
 	Harness   string   `json:"harness"`
 }
 
@@ -392,10 +393,54 @@ type replayFile struct {
 	TreeFP    string   `json:"tree_fingerprint"`
 	Engine    string   `json:"engine"`
 	Harness   string   `json:"harness"`
+	History   *history `json:"history_replay,omitempty"`
 	Scenario  any      `json:"scenario,omitempty"`
 	Faults    any      `json:"faults,omitempty"`
 	Schedule  []string `json:"schedule_and_events,omitempty"`
 	Minimise  string   `json:"minimisation,omitempty"`
+}
+
+// history: the violation depends on state left in the worker process by earlier
+// runs (a package-level cache, a reused buffer): it is reproduced by re-executing
+// the runs From..RunIdx of the same check seed in one fresh process.
+type history struct {
+	From   uint64 `json:"from_run_idx"`
+	RunIdx uint64 `json:"failing_run_idx"`
+	Note   string `json:"note"`
+}
+
+// historyReplay re-executes runs from..idx in a fresh worker and reports whether a
+// violation of the class shows at run idx.
+func historyReplay(bin string, p *propDef, tier string, seed, from, idx uint64, class, scratch string) (bool, string) {
+	ok, msg, at := historyScan(bin, p, tier, seed, from, idx-from+1, class, scratch)
+	return ok && at == idx, msg
+}
+
+// historyScan executes count runs starting at from in a fresh worker (no re-runs,
+// no minimisation, so the process history is exactly those runs) and returns the
+// first violation of the class.
+func historyScan(bin string, p *propDef, tier string, seed, from, count uint64, class, scratch string) (bool, string, uint64) {
+	out := filepath.Join(scratch, "hist.json")
+	os.Remove(out)
+	runDir := filepath.Join(scratch, "hist")
+	os.MkdirAll(runDir, 0o755)
+	cmd := workerCmd(bin, runDir, map[string]string{"VSIM_PROP": p.ID, "VSIM_TIER": tier, "VERIF_SEED": strconv.FormatUint(seed, 10), "VSIM_FROM": strconv.FormatUint(from, 10),
+		"VSIM_COUNT": strconv.FormatUint(count, 10), "VSIM_OUT": out, "VSIM_TMP": runDir, "VSIM_MAX_VIOL": "50", "VSIM_NO_MINIMISE": "1", "VSIM_DET_EVERY": "0"})
+	cmd.Run()
+	b, err := os.ReadFile(out)
+	if err != nil {
+		return false, "", 0
+	}
+	var s summary
+	if json.Unmarshal(b, &s) != nil {
+		return false, "", 0
+	}
+	for _, v := range s.Violations {
+		if v.Class == class {
+			return true, v.Msg, v.RunIdx
+		}
+	}
+	return false, "", 0
 }
 
 type knownFinding struct {
@@ -745,7 +790,7 @@ func runCheck(id, tier string) int {
 	// confirm violations in a fresh process; match known findings
 	exit := 0
 	nViol := 0
-	var knownHit []string
+	var knownHit, unrepro []string
 	seenClass := map[string]bool{}
 	sort.Slice(viols, func(i, j int) bool {
 		if viols[i].Class != viols[j].Class {
@@ -789,7 +834,38 @@ func runCheck(id, tier string) int {
 			}
 		}
 		if !reproduced {
-			die(2, "violation %s (run %d) did not reproduce in a fresh process in %d attempts: not reported", v.Class, v.RunIdx, attempts)
+			// The run may depend on what earlier runs left behind in the worker process
+			// (hidden package-level state): re-execute a suffix of the worker's history.
+			bin := filepath.Join(dir, v.Harness+".test")
+			batch := uint64(p.Batch)
+			if batch == 0 {
+				batch = 200
+			}
+			if ok, _, at := historyScan(bin, p, tier, seed, v.BatchFrom, batch, v.Class, scratch); ok {
+				// shrink the history: the shortest suffix of runs that still ends in the violation
+				for k := uint64(1); ; k *= 2 {
+					from := v.BatchFrom
+					if at >= k && at-k > from {
+						from = at - k
+					}
+					if ok2, msg := historyReplay(bin, p, tier, seed, from, at, v.Class, scratch); ok2 {
+						rf.History = &history{From: from, RunIdx: at, Note: "not reproducible from one run's tape: the outcome depends on state that earlier runs left in the process; replay re-executes runs from_run_idx..failing_run_idx of this check seed in one fresh process"}
+						rf.Scen, rf.Dyn, rf.RunIdx = nil, nil, at
+						rf.Msg = msg
+						rf.Minimise = fmt.Sprintf("history of %d runs", at-from+1)
+						res = map[string]any{"class": v.Class, "msg": msg}
+						reproduced = true
+						break
+					}
+					if from == v.BatchFrom {
+						break
+					}
+				}
+			}
+		}
+		if !reproduced {
+			unrepro = append(unrepro, fmt.Sprintf("violation %s (run %d) did not reproduce in a fresh process in %d attempts nor by replaying the worker's history: not reported", v.Class, v.RunIdx, attempts))
+			continue
 		}
 		if attempts > 1 {
 			rf.Minimise += fmt.Sprintf("; the code under test behaves nondeterministically: reproduced at fresh-process attempt %d", attempts)
@@ -828,6 +904,12 @@ func runCheck(id, tier string) int {
 		exit = 1
 	}
 
+	for _, m := range unrepro {
+		fmt.Fprintln(os.Stderr, "vcheck:", m)
+	}
+	if len(unrepro) > 0 && nViol == 0 && len(knownHit) == 0 {
+		die(2, "alarm(s) raised by workers could not be reproduced: no verdict for %s", id)
+	}
 	// auxiliary race lane (runtime monitoring, separate evidence keys)
 	var race *raceResult
 	if p.RaceLane && os.Getenv("VSIM_NO_RACE") == "" {
@@ -856,6 +938,9 @@ func runCheck(id, tier string) int {
 		}
 		if len(race.Reports) > 0 {
 			report(id+"/data-race", "the race detector reported a data race in the un-gated lane: "+firstLineOf(raceSite(race.Reports[0])), race.Reports)
+		}
+		if race.Hang != "" {
+			report(id+"/race-lane-hang", "an un-gated concurrent run never finished (deadlock or livelock): "+race.Hang, tail(race.HangStacks, 8000))
 		}
 		if race.Mismatches > 0 {
 			report(id+"/race-lane-mismatch", "un-gated concurrent run gave a wrong result: "+race.FirstMsg, race.FirstMsg)
@@ -939,6 +1024,8 @@ type raceResult struct {
 	Goroutines int
 	Reports    []string
 	FirstMsg   string
+	Hang       string
+	HangStacks string
 	WallS      float64
 	Procs      []string
 }
@@ -981,7 +1068,11 @@ func runRaceLane(p *propDef, tier string, seed uint64, scratch string) *raceResu
 					}
 				}
 			}
-			if err != nil && len(rr.Reports) == 0 {
+			hung := false
+			if ee, ok := err.(*exec.ExitError); ok && ee.ExitCode() == 4 {
+				hung = true
+			}
+			if err != nil && len(rr.Reports) == 0 && !hung {
 				rr.Reports = append(rr.Reports, "race-lane process failed without a race log: "+tail(string(ob), 3000))
 				rr.Mismatches = -1
 			}
@@ -990,8 +1081,13 @@ func runRaceLane(p *propDef, tier string, seed uint64, scratch string) *raceResu
 					Iterations, Mismatches int
 					Goroutines             int    `json:"goroutines_started"`
 					First                  string `json:"first_mismatch"`
+					Hang                   string `json:"hang"`
+					HangStacks             string `json:"hang_stacks"`
 				}
 				if json.Unmarshal(b, &x) == nil {
+					if x.Hang != "" && rr.Hang == "" {
+						rr.Hang, rr.HangStacks = x.Hang, x.HangStacks
+					}
 					rr.Iterations += x.Iterations
 					if rr.Mismatches >= 0 {
 						rr.Mismatches += x.Mismatches
@@ -1110,6 +1206,22 @@ func replayCmd(path string) int {
 		die(2, "mktemp: %v", err)
 	}
 	defer os.RemoveAll(scratch)
+	if rf.History != nil {
+		tier := rf.Tier
+		if tier == "" {
+			tier = "quick"
+		}
+		if ok, msg := historyReplay(filepath.Join(dir, rf.Harness+".test"), p, tier, rf.CheckSeed, rf.History.From, rf.History.RunIdx, rf.Class, scratch); ok {
+			fmt.Printf("reproduced by re-executing runs %d..%d: %s: %s\n", rf.History.From, rf.History.RunIdx, rf.Class, msg)
+			fmt.Printf("VIOLATION property=%s replay=%s\n", rf.Property, path)
+			return 1
+		}
+		fmt.Printf("not reproduced on this tree (history replay of runs %d..%d); tree fingerprint %s vs recorded %s\n", rf.History.From, rf.History.RunIdx, binfo.Fingerprint, rf.TreeFP)
+		if binfo.Fingerprint == rf.TreeFP {
+			return 2
+		}
+		return 0
+	}
 	res, code, errText := replayOnce(filepath.Join(dir, rf.Harness+".test"), p, path, scratch)
 	if code != 0 || res == nil {
 		die(2, "replay failed to run: %s", errText)
